@@ -42,7 +42,9 @@ func (a *Acc) Mark(digest uint64, n int) {
 
 func (a *Acc) Sample(c *core.Case, max int) {
 	if len(a.Samples) < max {
-		a.Samples = append(a.Samples, c.JSON())
+		if j := c.JSON(); len(j) < 20000 { // keep evidence files readable: no huge-value cases as samples
+			a.Samples = append(a.Samples, j)
+		}
 	}
 }
 
